@@ -7,7 +7,8 @@
      guarded b tr         every line delivered before the first binary_data call is b-free
      std_spec             what the standard printer writes for a delivered event sequence      [Spec/BinarySpec] *)
 From RG Require Import Base.Bytes Model.LineBufferBin Model.BinaryDetect Spec.BinarySpec
-  Proofs.LineBufferBinProofs Proofs.BinaryDetectProofs Proofs.PrinterBinProofs Proofs.TextModeProofs.
+  Proofs.LineBufferBinProofs Proofs.BinaryDetectProofs Proofs.PrinterBinProofs Proofs.TextModeProofs
+  Proofs.BinaryOffsetProofs.
 
 (* 1. replace_bytes (three nested loops) = map (src |-> replacement), returns the first index *)
 Theorem replace_bytes_spec :
@@ -194,6 +195,40 @@ Theorem detection_table :
     else match flag with BinSearchAndSuppress => BConvert 0 | _ => BQuit 0 end.
 Proof. intros [| |] [|] [|]; reflexivity. Qed.
 Print Assumptions detection_table.
+
+(* 15. the reported offset is that of the FIRST occurrence.  LineBuffer: in every state reachable from a cleared
+       buffer, `seen` being everything the readers have delivered so far (lb_reach_s), binary_byte_offset is the
+       index of the first b in `seen` (None if there is none) — across rolls, growth, partial reads *)
+Theorem binary_offset_is_first :
+  forall (cfg : lb_config) (b : byte) (lb : line_buffer) (seen : bytes),
+    hides cfg b -> lb_reach_s cfg lb seen -> lb_bin lb = memchr b seen.
+Proof. exact binary_offset_is_first_proof. Qed.
+Print Assumptions binary_offset_is_first.
+
+(* 16. reader strategy: every binary_data(off) call and the offset given to finish are the index of the first
+       b of the stream (what the reader still had to deliver at the start), any Core, sink, history, fuel *)
+Theorem reader_binary_offset_is_first :
+  forall (St core : Type) (sink : St -> event -> St * bool) (mode : bin_mode) (b : byte)
+         (c_roll : core -> bytes -> nat * core) (c_plan : core -> bytes -> list call * bool * core)
+         (cfg : lb_config) (stream0 : bytes) (fuel : nat) (lb0 : line_buffer) (rd : reader) (core0 : core) (s0 : St),
+    hides cfg b -> (forall c buf, fst (c_roll c buf) <= length buf) -> rd_rest rd = stream0 ->
+    let res := rbl_run sink mode c_roll c_plan cfg fuel lb0 rd core0 (s0, []) in
+    Forall (okev b stream0) (snd (fst res)) /\
+    (snd res = ODone -> exists bc bn t, snd (fst res) = EFinish bc bn :: t /\
+                                        forall off, bn = Some off -> memchr b stream0 = Some off).
+Proof. intros. apply reader_binary_offset_proof; assumption. Qed.
+Print Assumptions reader_binary_offset_is_first.
+
+(* 17. slice strategies (any plan): if the sniffed prefix (first min(len, 64 KiB) bytes) holds b, binary_data gets
+       the first occurrence of the whole slice; otherwise the prefix is b-free and the offset is an occurrence of
+       b inside a reported line (lines that are not reported are never examined: the documented heuristic) *)
+Theorem slice_binary_offset :
+  forall (St : Type) (sink : St -> event -> St * bool) (mode : bin_mode) (b : byte) (sniff : nat) (slice : bytes)
+         (plan : list call) (final_pos : nat) (s0 : St),
+    mode_byte mode = Some b ->
+    Forall (okev_slice b sniff slice) (snd (slice_run sink mode sniff slice plan final_pos (s0, []))).
+Proof. intros. apply slice_binary_offset_proof. assumption. Qed.
+Print Assumptions slice_binary_offset.
 
 (* ---- non-vacuity ---- *)
 (* a reachable quit-mode buffer after two fills with capacity 3: "ab\nc\0d" read in chunks of 2 *)
